@@ -342,8 +342,12 @@ def r4_3(run):
     if neg and pos:
         lk = [s_ for s_ in st if s_.loops and key(s_.value[1] if s_.value[0] == "upd" else s_.value).find("'loop'") >= 0
               and s_.base[0] == "idx" and s_.base[1][0] == "idx"]
-        run.ob("reduce_lookups|lookup-stored-per-table", any(base_of(s_.value) == base_of(pos[0].base) and contains(s_.base, C("_lookups"))
-                                                              and s_.seq > max(neg[0].seq, pos[0].seq) for s_ in st if s_.loops),
+        per_tbl = [s_ for s_ in st if s_.loops and base_of(s_.value) == base_of(pos[0].base) and s_.seq > max(neg[0].seq, pos[0].seq)]
+        # either directly into net['_lookups'][...][table], or into a local dict that is stored there after the loop
+        direct = any(contains(s_.base, C("_lookups")) for s_ in per_tbl)
+        via = any(contains(s2.base, C("_lookups")) and not s2.loops and key(base_of(s2.value)) == key(base_of(s_.base))
+                  for s_ in per_tbl for s2 in st if s2.seq > s_.seq)
+        run.ob("reduce_lookups|lookup-stored-per-table", direct or via,
                "the renumbered copy is what is stored as the active index lookup of the table", w)
     # from_to table rebuilt cumulatively
     ft = [s_ for s_ in st if s_.loops and s_.value[0] in ("tuple", "list") and len(s_.value[1]) == 2 and base_of(s_.base)[0] == "new"]
@@ -585,6 +589,10 @@ def r4_7(run):
                 if t and t[0] == "call" and t[1] == ("x", "builtins.len") and len(t[2]) == 1 and t[2][0][0] == "idx" \
                         and len(t[2][0][2]) == 1 and t[2][0][2][0][0] != "slice":
                     return length_of(t[2][0])
+                if t and t[0] == "call" and t[1] == ("x", "builtins.len") and len(t[2]) == 1 and t[2][0][0] == "call" \
+                        and t[2][0][1] == np_("concatenate") and t[2][0][2] and t[2][0][2][0][0] in ("list", "tuple"):
+                    # len(np.concatenate([a, b, ...])) == len(a) + len(b) + ...
+                    return mk_opn("+", [nl(length_of(p_)) for p_ in t[2][0][2][0][1]])
                 if t and t[0] == "opn":
                     return mk_opn(t[1], [nl(x) for x in t[2]])
                 return tuple(nl(x) for x in t)
